@@ -709,7 +709,13 @@ func c09Graphs(c *Ctx) error {
 					levels[k] = g.Level
 					vis[k] = g.Visited
 				}
-				c.Case(in, L(snaps[0], snaps[1], snaps[2], csx, Ints(levels), Bits(vis)))
+				// circuit.AssignLevels on the compiled circuit (Gate.Level of every flat gate)
+				circ.AssignLevels(tgt)
+				alev := make([]int, len(circ.Gates))
+				for k := range circ.Gates {
+					alev[k] = int(circ.Gates[k].Level)
+				}
+				c.Case(in, L(snaps[0], snaps[1], snaps[2], csx, Ints(levels), Bits(vis), Ints(alev)))
 				if i < 1 && !prune && tgt == utils.TargetYao {
 					c.Sample(map[string]interface{}{"recipe": rc, "gates_in": len(num.gates), "gates_out": circ.NumGates})
 				}
